@@ -122,6 +122,7 @@ def gen_plan(tape, cfg):
         elif k == "get_value":
             srt = tape.choice([s_ for s_ in symbols.values() if not bp.is_usort(s_) and not bp.is_fun(s_)] or [bp.BOOL], "gv.sort")
             o["t"] = bp.gen_term(tape, srt, tape.rint(0, 2, "gv.depth"), ctx)
+            o["api"] = tape.choice(["get_value", "get_value", "get_py_value", "get_values"], "gv.api")
         elif k == "shortcut":
             o["kind"] = tape.choice(["is_sat", "is_valid", "is_unsat", "get_model"]
                                     if not (use_usort or any(bp.is_fun(s_) for s_ in symbols.values()))
@@ -457,7 +458,19 @@ def execute(plan, tape):
                         check_stream(st, where)
                         continue
                 else:
-                    got = call(st, "get_value", solver.get_value, t)
+                    api_ = o.get("api", "get_value")
+                    if api_ == "get_py_value":
+                        pv = call(st, "get_py_value", solver.get_py_value, t)
+                        got = call(st, "get_value", solver.get_value, t)
+                        if got.is_constant() and pv != got.constant_value():
+                            raise Violation("C17:value", "%s: get_py_value gave %r, get_value gave %s" % (where, pv, got))
+                    elif api_ == "get_values":
+                        dv = call(st, "get_values", solver.get_values, [t])
+                        if list(dv) != [t]:
+                            raise Violation("C17:value", "%s: get_values([t]) returned keys %s" % (where, list(dv)))
+                        got = dv[t]
+                    else:
+                        got = call(st, "get_value", solver.get_value, t)
                 m = _ref_env(ref)
                 if m is None:
                     raise Violation("C17:model-mode", "get_value returned %s but the solver is in mode %s" % (got, ref.mode))
